@@ -197,6 +197,12 @@ private:
   int64_t _param;
 };
 
+struct CsvSchema
+{
+  static constexpr char const* header = "id,text,value";
+  static constexpr char const* format = "{},{},{:.2f}";
+};
+
 struct UserClock : quill::UserClockSource
 {
   // a user clock that is not monotonic across threads on purpose: the timestamp ordering clause
@@ -767,6 +773,34 @@ struct VM : VMBase
       QUILL_TRY { got = Fe::get_sink("sink" + std::to_string(i)); }
       QUILL_CATCH(quill::QuillError const&) {}
       record(EV_GET_SINK, static_cast<int64_t>(i), got != nullptr, got.get() == in_use);
+      break;
+    }
+    case OP_CSV:
+    {
+      // a CsvWriter scope over a file name: construct (logger + FileSink), append rows, destroy (blocking removal);
+      // afterwards the file holds the header and every row, and the same name can be used again
+      if (!backend_running || FO::queue_type == quill::QueueType::BoundedDropping ||
+          FO::queue_type == quill::QueueType::UnboundedDropping)
+      {
+        break;
+      }
+      note_thread_logged(tid);
+      std::string const path = scratch_dir + "/csv" + std::to_string(op.v[0]) + ".csv";
+      std::string expected = std::string(CsvSchema::header) + "\n";
+      {
+        quill::CsvWriter<CsvSchema, FO> w(path, 'w');
+        for (int64_t k = 0; k < op.v[1]; ++k)
+        {
+          int64_t const rid = static_cast<int64_t>(tid) * 1000000 + opi * 100 + k;
+          std::string cell = payload(static_cast<uint64_t>(rid), static_cast<size_t>(k % 17));
+          w.append_row(rid, cell, static_cast<double>(k) / 4.0);
+          expected += fmtquill::format("{},{},{:.2f}\n", rid, cell, static_cast<double>(k) / 4.0);
+        }
+      }
+      std::string actual = read_whole_file(path);
+      Ev& e = record(EV_CSV, op.v[0], op.v[1]);
+      e.s = expected;
+      e.s2 = actual;
       break;
     }
     case OP_DROP_SINK_REF:
